@@ -74,7 +74,7 @@ def tree_spec(draw, root="capsule", max_nodes=10, allow_links=True, names=None):
             nodes.append({"p": p, "t": "dir"})
             dirs.append(p)
         elif kind == "file":
-            content = draw(st.sampled_from(["text", "text", "text", "binary", "empty", "big"]))
+            content = draw(st.sampled_from(["text", "text", "text", "binary", "empty", "big", "crlf"]))
             nodes.append({"p": p, "t": "file", "c": content})
         else:
             candidates = existing + [n["p"] for n in nodes] + ["DANGLING", "SELF", "PARENT"]
@@ -91,6 +91,8 @@ def file_bytes(node) -> bytes:
         return (f"# {s}\ncontent of this file é日本\n").encode()
     if c == "empty":
         return b""
+    if c == "crlf":
+        return (f"# {s}\r\nline with CRLF\r\nlone CR\rmixed\n\r\nend").encode()
     if c == "binary":
         return s.encode() + b"\n\xff\xfe\x00binary"
     if c == "big":
